@@ -90,7 +90,8 @@ func TestC03RealNATS(t *testing.T) {
 				stopSrv()
 				fail("cycle %d: Conn() of a service started with ListenAndServe is %T", ci, s.Conn())
 			}
-			// the service answers
+			// the service answers (its subscriptions have reached the server after a ping round trip)
+			_ = nc.FlushTimeout(60 * time.Second)
 			client, err := srv.Connect()
 			if err != nil {
 				stopSrv()
